@@ -72,6 +72,14 @@ var gateNow int64 = T
 
 func thunkNow() time.Time { return time.Unix(gateNow, 0) }
 
+// atClock runs one call into the server with the path's clock installed.
+func atClock(now int64, fn func()) string {
+	gateMu.Lock()
+	defer gateMu.Unlock()
+	gateNow = now
+	return vk.Try(fn)
+}
+
 type rgrant struct {
 	t        int
 	from, to int64
@@ -97,7 +105,11 @@ func exec(path []ev) seqx.Step {
 			in := &authgrants.Intent{GrantType: gtypes[e.A].t, TargetUsername: users[p[0]], DelegateCert: leaf[p[1]],
 				StartTime: time.Unix(windows[e.B][0], 0), ExpTime: time.Unix(windows[e.B][1], 0)}
 			in.AssociatedData.CommandGrantData.Cmd = gtypes[e.A].cmd
-			if err := s.AddAuthGrant(in); err != nil {
+			var err error
+			if pn := atClock(now, func() { err = s.AddAuthGrant(in) }); pn != "" {
+				return seqx.Step{Bad: fmt.Sprintf("step %d %v panics: %s", i, e, pn)}
+			}
+			if err != nil {
 				return seqx.Step{Bad: fmt.Sprintf("step %d %v: AddAuthGrant failed: %v", i, e, err)}
 			}
 			stored[e.C] = append(stored[e.C], &rgrant{t: e.A, from: windows[e.B][0], to: windows[e.B][1]})
@@ -106,18 +118,52 @@ func exec(path []ev) seqx.Step {
 				return seqx.Step{Stop: true, Key: "cap"}
 			}
 			p := principals[e.A]
-			acts, err := s.AuthorizeKeyAuthGrant(users[p[0]], K[p[1]])
+			var acts []authgrants.Authgrant
+			var err error
+			if pn := atClock(now, func() { acts, err = s.AuthorizeKeyAuthGrant(users[p[0]], K[p[1]]) }); pn != "" {
+				return seqx.Step{Bad: fmt.Sprintf("step %d %v panics: %s", i, e, pn)}
+			}
 			want := stored[e.A]
-			if (err == nil) != (len(want) > 0) {
-				return seqx.Step{Bad: fmt.Sprintf("step %d %v: grant login admitted=%v but the reference holds %d stored grants for exactly this user and key", i, e, err == nil, len(want))}
+			if err == nil && len(want) == 0 {
+				return seqx.Step{Bad: fmt.Sprintf("step %d %v: grant login admitted but the reference holds no stored grant for exactly this user and key", i, e)}
+			}
+			live := 0
+			for _, g := range want {
+				if now < g.to {
+					live++
+				}
+			}
+			if err != nil && live > 0 {
+				return seqx.Step{Bad: fmt.Sprintf("step %d %v: grant login refused although %d unexpired grants are stored for this user and key (liveness)", i, e, live)}
 			}
 			if err != nil {
 				continue
 			}
-			if len(acts) != len(want) {
-				return seqx.Step{Bad: fmt.Sprintf("step %d %v: the session was handed %d grants, reference %d", i, e, len(acts), len(want))}
+			// what the session was handed must be a sub-multiset of what was stored; anything
+			// withheld must already have expired (the clock only moves forward)
+			var handed []*rgrant
+			used := map[*rgrant]bool{}
+			for _, a := range acts {
+				var m *rgrant
+				for _, g := range want {
+					gt := gtypes[g.t]
+					if !used[g] && gt.t == a.GrantType && gt.cmd == a.AssociatedData.CommandGrantData.Cmd && g.from == a.StartTime.Unix() && g.to == a.ExpTime.Unix() {
+						m = g
+						break
+					}
+				}
+				if m == nil {
+					return seqx.Step{Bad: fmt.Sprintf("step %d %v: the session was handed a grant (type %d, cmd %q, window %d..%d) that is not among the unconsumed grants stored for this user and key (handed %d, stored %d)", i, e, a.GrantType, a.AssociatedData.CommandGrantData.Cmd, a.StartTime.Unix()-T, a.ExpTime.Unix()-T, len(acts), len(want))}
+				}
+				used[m] = true
+				handed = append(handed, m)
 			}
-			sessions = append(sessions, &sess{v: s.VerifNewSession(users[p[0]], true, acts), grants: want})
+			for _, g := range want {
+				if !used[g] && now < g.to {
+					return seqx.Step{Bad: fmt.Sprintf("step %d %v: an unexpired stored grant was not handed to the session (liveness)", i, e)}
+				}
+			}
+			sessions = append(sessions, &sess{v: s.VerifNewSession(users[p[0]], true, acts), grants: handed})
 			stored[e.A] = nil // grants disappear from the server once handed to a session
 		case "req":
 			if e.A >= len(sessions) {
@@ -137,11 +183,7 @@ func exec(path []ev) seqx.Step {
 				}
 			}
 			var err error
-			gateMu.Lock()
-			gateNow = now
-			pn := vk.Try(func() { err = se.v.CheckCmd(rq.cmd, rq.pty) })
-			gateMu.Unlock()
-			if pn != "" {
+			if pn := atClock(now, func() { err = se.v.CheckCmd(rq.cmd, rq.pty) }); pn != "" {
 				return seqx.Step{Bad: fmt.Sprintf("step %d %v panics: %s", i, e, pn)}
 			}
 			if err == nil && match == nil {
@@ -237,9 +279,25 @@ func main() {
 	for a := range clocks {
 		alpha = append(alpha, ev{K: "tick", A: a})
 	}
-	r.SetRule(fmt.Sprintf("explicit-state BFS to depth %d over %d events on a real HopServer with authgrants enabled: AddAuthGrant(type in {shell, cmd a, cmd b} x window in %v x (user,key) in 3 pairs), Login (grant path), Request(session, (cmd,pty) in 6 forms incl. trailing blank, empty, pty+cmd) through the gate startCodex applies (checkCmd), Tick to 10 clock values around every window edge (thunks.TimeNow); reference: an action starts iff a grant handed to that session at login is unused, matches type and exact command text, and start <= now < expiry, and is then consumed; grants leave the server at login. States deduplicated on (grant map, key set, sessions, clock, reference).", depth, len(alpha), winNames))
+	r.SetRule(fmt.Sprintf("explicit-state BFS to depth %d over %d events on a real HopServer with authgrants enabled: AddAuthGrant(type in {shell, cmd a, cmd b} x window in %v x (user,key) in 3 pairs), Login (grant path), Request(session, (cmd,pty) in 6 forms incl. trailing blank, empty, pty+cmd) through the gate startCodex applies (checkCmd), forward clock moves to 10 values around every window edge (thunks.TimeNow, installed for every call into the server); reference: an action starts iff a grant handed to that session at login is unused, matches type and exact command text, and start <= now < expiry, and is then consumed; grants leave the server at login. States deduplicated on (grant map, key set, sessions, clock, reference).", depth, len(alpha), winNames))
 	b := &seqx.BFS[ev]{MaxDepth: depth, Workers: r.Workers, Expired: r.Expired,
-		Alphabet: func([]ev) []ev { return alpha },
+		Alphabet: func(path []ev) []ev {
+			// the clock only moves forward
+			cur := T
+			for _, e := range path {
+				if e.K == "tick" {
+					cur = clocks[e.A]
+				}
+			}
+			var a []ev
+			for _, e := range alpha {
+				if e.K == "tick" && clocks[e.A] <= cur {
+					continue
+				}
+				a = append(a, e)
+			}
+			return a
+		},
 		Exec: func(p []ev) seqx.Step {
 			r.Eval()
 			st := exec(p)
@@ -254,7 +312,7 @@ func main() {
 				p = append(p, e.String())
 			}
 			cls := "other"
-			for _, c := range []string{"not yet effective", "has expired", "already used", "no grant of this session matches", "liveness", "handed", "admitted", "panics"} {
+			for _, c := range []string{"not yet effective", "has expired", "already used", "no grant of this session matches", "liveness", "was handed a grant", "login admitted", "panics"} {
 				if strings.Contains(bad, c) {
 					cls = strings.ReplaceAll(c, " ", "-")
 					break
